@@ -220,6 +220,19 @@ def gen_query(rng):
         q = rng.choice(["SELECT a, b FROM t1 ORDER BY a, b", "SELECT a FROM t1 ORDER BY a DESC, b LIMIT 3", "SELECT DISTINCT(a) FROM t1", "SELECT a, count(*) FROM t1 GROUP BY 1 ORDER BY 1",
                         "SELECT t1.a, t2.d FROM t1, t2 WHERE t1.a = t2.a", "SELECT a FROM t1 WHERE c = 'x' OR c = \"y\"", "SELECT foo.a FROM t1 AS foo INNER JOIN t2 AS bar ON bar.a = foo.a",
                         "SELECT a AS a, b AS B FROM t1", "select A, B from T1 where C = 'X'", "SELECT t1.a FROM t1 JOIN t2 ON t2.a = t1.a JOIN t3 ON t3.x = t2.d"])
+    if rng.random() < 0.25:
+        # aliases that are referenced, in varying letter case (identifiers are case-insensitive)
+        q = rng.choice(["SELECT x.a FROM t1 AS X", "SELECT x.a, Y.d FROM t1 AS x JOIN t2 AS y ON X.a = y.a", "SELECT a FROM t1 AS x ORDER BY X.b",
+                        "SELECT x.a FROM t1 AS x WHERE EXISTS (SELECT 1 FROM t2 AS Z WHERE z.a = x.a)", "SELECT T1.a, t1.b FROM t1 WHERE T1.a > 0",
+                        "SELECT q.A, Q.b FROM (SELECT a, b FROM t1) AS q", "WITH Cte AS (SELECT a FROM t1) SELECT cte.a FROM CTE", "SELECT a AS Total FROM t1 ORDER BY total"])
+    if rng.random() < 0.3:
+        # letter-case jitter of unquoted words, occurrence by occurrence
+        def jit(m):
+            w = m.group(0)
+            r_ = rng.random()
+            return w.upper() if r_ < 0.15 else (w.lower() if r_ < 0.3 else w)
+        parts = re.split(r"('[^']*'|\"[^\"]*\")", q)
+        q = "".join(p_ if i % 2 else re.sub(r"[A-Za-z_][A-Za-z_0-9]*", jit, p_) for i, p_ in enumerate(parts))
     return q + rng.choice(["\n", "", ";\n", "\n\n"])
 
 
